@@ -125,10 +125,12 @@ func H_C08(cfg int) {
 	method := nondetString("method", 7)
 	acrm := nondetString("acrm", 4)
 	hdr := map[string]string{"Origin": origin, HEADER_AccessControlRequestMethod: acrm}
+	// /t/a has a route for OPTIONS, /t/b has routes but none for OPTIONS
+	url := []string{"/t/a", "/t/b"}[nondetChoice("url", 2)]
 	rec := vNewRec()
-	h.dispatch(c, rec, vHdrReq(method, "/t/a", hdr))
+	h.dispatch(c, rec, vHdrReq(method, url, hdr))
 	rect := vNewRec()
-	ht.dispatch(twin, rect, vHdrReq(method, "/t/a", hdr))
+	ht.dispatch(twin, rect, vHdrReq(method, url, hdr))
 	allowed := k.refOriginAllowed(origin)
 	verifCoverIf("allowed", vAnd(allowed, len(origin) > 0))
 	verifCoverIf("refused", !allowed)
